@@ -315,7 +315,7 @@ def emit_uaforms(w, src, must):
     bnd = bool(re.search(r"mpsc::channel\(", t)) or "try_send" in t
     w("(* the per-transaction message queue (Transactions::get_handler, TsxRegistration::create) is unbounded: nothing a transaction")
     w("   has not picked up yet is ever refused *)")
-    flag(w, "tsx_queue_unbounded", unb >= 2 and not bnd, bnd, "the channel between do_receive and a transaction")
+    flag(w, "tsx_queue_unbounded", unb >= 1 and not bnd, bnd, "the channel between do_receive and a transaction")
     w("")
 
 
